@@ -257,6 +257,7 @@ inline const char* oname(int o)
   static const char* n[] = { "RETURN", "ABORT", "ALLOC_FAIL", "CRASH" };
   return n[o & 3];
 }
+#if defined(__cpp_exceptions)
 template<class F>
 inline Outcome attempt(F&& f)
 {
@@ -271,6 +272,7 @@ inline Outcome attempt(F&& f)
     return ALLOC_FAIL;
   }
 }
+#endif
 
 template<class T>
 inline const char* tname()
